@@ -147,13 +147,17 @@ def candidates (s : St) (b : Book) (op : List String) (res : String) (obs : List
       | .error e => (b, s!"{errTag e} 0 0")
     some ("balance", cands)
   | ["TRUNC", _] =>
-    -- the cut is the unique live vertex all of whose graph parents disappeared; try every vertex
-    let cands := b.verts.filterMap fun c =>
+    -- the cut is a vertex that stays live while all of its graph parents disappear; the BFS position
+    -- rule (`cutAdmissible`) is checked for it against some current tip
+    let cuts := b.verts.filter fun c =>
+      obsV.contains c.hash && !(b.parentsOf c.hash).isEmpty && (b.parentsOf c.hash).all (fun p => !obsV.contains p)
+    let cands := cuts.filterMap fun c =>
       if b.leaves.any (fun tip => cutAdmissible b tip.hash c.hash) then
         let (b', r) := b.truncateAt c.hash
         some (b', resTag r)
       else none
-    let cands := if cands.isEmpty then [(b, "idUnknown")] else cands
+    -- fewer than truncateDiff ancestors below every tip: nothing to cut, truncate is a no-op
+    let cands := if cands.isEmpty then [(b, "ok")] else cands
     some ("truncate", cands)
   | ["STREAM", _, names] => do
     let ns ← natList names
@@ -188,6 +192,14 @@ def step (s : St) (lineNo : Nat) (line : String) : St × Option String :=
   let bump (s : St) := { s with stats := { s.stats with lines := s.stats.lines + 1 } }
   match toks line with
   | ["RESET"] => ({ s with defs := [], books := [], desynced := [] }, none)
+  | ["CCT", c, d, r] =>
+    match u64? c, u64? d with
+    | some c, some d =>
+      let m := if checkCanTruncate c d then "1" else "0"
+      let s := { (bump s) with stats := (bump s).stats.hit "checkCanTruncate" }
+      if m == r then (s, none)
+      else ({ s with stats := { s.stats with mismatches := s.stats.mismatches + 1 } }, some s!"MISMATCH {lineNo} | CCT {c} {d} | {r} | model: {m}")
+    | _, _ => (s, some "bad CCT")
   | "H" :: _ => (s, none)
   | "A" :: _ => (s, none)
   | ["NEW", id, addr] =>
@@ -207,6 +219,32 @@ def step (s : St) (lineNo : Nat) (line : String) : St × Option String :=
     | [opS, res, snapS] =>
       let op := toks opS
       let node := (op[1]?.bind (·.toNat?)).getD 0
+      if op.head? == some "SEED" then
+        -- re-seeded mode: take the implementation's state as the model state
+        let obs := parseSnap snapS
+        let get := fun k => ((obs.find? (·.1 == k)).map (·.2)).getD ""
+        let self := ((s.book node).map (·.self)).getD ""
+        let vs := ((natList (get "V")).getD []).filterMap s.vertex
+        let cps := ((natList (get "C")).getD []).filterMap s.vertex
+        let pairs := fun (str : String) (sep : String) => if str == "" then [] else (str.splitOn ",").filterMap fun e =>
+          match e.splitOn sep with
+          | [a, b] => (match a.toNat?, b.toNat? with | some x, some y => some (x, y) | _, _ => none)
+          | _ => none
+        let funds := if get "F" == "" then [] else ((get "F").splitOn ",").filterMap fun e =>
+          match e.splitOn ":" with
+          | [a, c, sp] => (match u64? c, u64? sp with | some x, some y => some (a, (⟨x, y⟩ : Melange)) | _, _ => none)
+          | _ => none
+        let parked := (pairs (get "P") ":").filterMap fun (v, r) => (s.vertex v).map (·, r)
+        let gen := if get "G" == "-" then "" else get "G"
+        let tr := if get "TR" == "" then [] else (get "TR").splitOn ","
+        let b0 : Book := { self := self }
+        let b1 : Book := { b0 with genesis := gen, verts := vs, edges := pairs (get "E") ">", index := pairs (get "I") ":" }
+        let b2 : Book := { b1 with cpFunds := funds, cpVerts := cps, trusted := tr, parked := parked, loaded := get "L" == "1" }
+        let b : Book := { b2 with weight := (u64? (get "W")).getD 0, throughput := (u64? (get "T")).getD 0 }
+        let s := { s with desynced := s.desynced.filter (· != node) }
+        if snapMatches b obs then (bump (s.setBook node b), none)
+        else (bump s, some s!"MISMATCH {lineNo} | SEED | state could not be represented: {snapDiff b obs}")
+      else
       if s.desynced.contains node then ({ s with skipped := s.skipped + 1 }, none) else
       match s.book node with
       | none => (bump s, some s!"unknown node {node}")
